@@ -2,7 +2,7 @@
    spike-subset arrays o_subset, the uuid generator o_uuids under its count/distinctness hypothesis) and every
    correctly-rounded-operation / matrix-inverse oracle of the loader model PV.C04.Model.load. *)
 From Coq Require Import ZArith List Bool String Ascii Lia.
-From PV Require Import Base.Tok Base.TokArith C04.Model C13.Model C13.Spec C13.Proofs1 C13.Proofs2 C13.Proofs3.
+From PV Require Import Base.Tok Base.TokArith C04.Model C13.Model C13.Spec C13.Proofs1 C13.Proofs2 C13.Proofs3 C13.Proofs4.
 Import ListNotations.
 Open Scope string_scope.
 Open Scope list_scope.
@@ -158,6 +158,53 @@ Theorem C13_roundtrip : forall fdiv fmul fround inv inv2 o ci r rate ncd kv rate
 Proof. exact roundtrip_thm. Qed.
 Print Assumptions C13_roundtrip.
 
+(* Acceptance: the loader model ACCEPTS the directory convert() writes -- for every label, every oracle (C14's values,
+   subset arrays, uuids, matrix inverse), every sample rate, and every channel count n_channels_dat that is absent or
+   at least the largest re-based raw index + 1.  Needs a KS-named source (channel_positions.npy) and no axis of
+   length 1 (phylib squeezes every array it reads). *)
+Theorem C13_accepts : forall fdiv fmul fround inv inv2 o ci r rate ncd kv rate2 ncd2,
+  load fdiv fmul fround inv (ci_src ci) rate ncd = Ok (ci_m ci) ->
+  find_path P_times_ks (ci_src ci) = Some kv ->
+  src_wf (ci_m ci) (ci_src ci) = true ->
+  has "channel_positions.npy" (ci_src ci) = true ->
+  n_spikes (ci_m ci) <> 1 -> n_channels (ci_m ci) <> 1 -> n_templates (ci_m ci) <> 1 -> n_wsamples (ci_m ci) <> 1 ->
+  convert o ci = COk r ->
+  match ncd2 with
+  | Some k => Forall (fun z => z <= k - 1) (raw_ind (ids_of (l_probes (ci_m ci))) (ids_of (l_cmap (ci_m ci))))
+  | None => True end ->
+  exists m2, load fdiv fmul fround inv2 (co_npy r) rate2 ncd2 = Ok m2.
+Proof. intros. eapply accepts_thm; eauto. Qed.
+Print Assumptions C13_accepts.
+
+(* Round trip without any premise on the read-back: with the channel count of the source's own params.py (the file
+   convert() copies) or none, and any sample rate, the written directory loads, and loads back to the source's spikes *)
+Theorem C13_roundtrip_total : forall fdiv fmul fround inv inv2 o ci r rate ncd kv rate2 ncd2,
+  load fdiv fmul fround inv (ci_src ci) rate ncd = Ok (ci_m ci) ->
+  find_path P_times_ks (ci_src ci) = Some kv ->
+  src_wf (ci_m ci) (ci_src ci) = true ->
+  has "channel_positions.npy" (ci_src ci) = true ->
+  ids_ok (l_sclusters (ci_m ci)) = true -> ids_ok (l_stemplates (ci_m ci)) = true ->
+  n_spikes (ci_m ci) <> 1 -> n_channels (ci_m ci) <> 1 -> n_templates (ci_m ci) <> 1 -> n_wsamples (ci_m ci) <> 1 ->
+  convert o ci = COk r ->
+  ncd2 = ncd \/ ncd2 = None ->
+  exists m2, load fdiv fmul fround inv2 (co_npy r) rate2 ncd2 = Ok m2 /\
+    l_times m2 = l_times (ci_m ci) /\ l_samples m2 = l_samples (ci_m ci) /\
+    l_sclusters m2 = l_sclusters (ci_m ci) /\
+    (a_dt (l_stemplates m2) = DU16 /\ a_shape (l_stemplates m2) = a_shape (l_stemplates (ci_m ci)) /\
+     a_data (l_stemplates m2) = a_data (l_stemplates (ci_m ci))) /\
+    l_pos m2 = l_pos (ci_m ci) /\
+    l_cmap m2 = rawind_arr (ci_m ci).
+Proof.
+  intros fdiv fmul fround inv inv2 o ci r rate ncd kv rate2 ncd2 Hl Hk Hwf Hpos Hic Hit Hns Hnc Hnt Hnw Hc Hn.
+  assert (Hcond : match ncd2 with
+                  | Some k => Forall (fun z => z <= k - 1) (raw_ind (ids_of (l_probes (ci_m ci))) (ids_of (l_cmap (ci_m ci))))
+                  | None => True end).
+  { destruct Hn as [->| ->]; [|exact I]. eapply ncd_source_ok; eauto. }
+  destruct (accepts_thm fdiv fmul fround inv inv2 o ci r rate ncd kv Hl Hk Hwf Hpos Hns Hnc Hnt Hnw Hc rate2 ncd2 Hcond) as (m2 & Hm2).
+  exists m2. split; [exact Hm2|]. eapply roundtrip_thm; eauto.
+Qed.
+Print Assumptions C13_roundtrip_total.
+
 (* ... and the exported rawInd IS the source channel map when all channels are on one probe *)
 Theorem C13_rawind_single_probe : forall p probes cmap, probes <> [] -> Forall (fun x => x = p) probes ->
   List.length probes = List.length cmap -> raw_ind probes cmap = cmap.
@@ -188,6 +235,9 @@ Example C13_ex_converts :
       ids_ok (l_sclusters m) = true /\ ids_ok (l_stemplates m) = true /\ l_tcols m = None /\
       ids_of (l_sclusters m) = [0; 2; 1] /\ ids_of (l_stemplates m) = [0; 1; 1] /\ n_spikes m = 3 /\ n_channels m = 2 /\
       find_path P_times_ks ex_src = Some ("spike_times.npy", mkarr DU64 [3; 1] [TNum 0 0; TNum 1 1; TNum 5 0]) /\
+      (* ... and those of C13_accepts / C13_roundtrip_total (n_channels_dat = Some 2 bounds the raw indices) *)
+      has "channel_positions.npy" ex_src = true /\ n_wsamples m = 2 /\
+      raw_ind (ids_of (l_probes m)) (ids_of (l_cmap m)) = [1; 0] /\
       match convert ex_o (ex_ci m "probe00" false) with
       | COk r =>
           map fst (co_npy r) =
